@@ -55,6 +55,7 @@ UNITS = {
             I(RAW, r'^impl RawTableInner$', 'find_insert_slot', impl='RawTableInner'),
             I(RAW, r'^impl RawTableInner$', 'find_inner', impl='RawTableInner'),
             I(RAW, r'^impl RawTableInner$', 'find_or_find_insert_slot_inner', impl='RawTableInner'),
+            I(RAW, r'^impl RawTableInner$', 'prepare_rehash_in_place', impl='RawTableInner'),
         ],
     ),
     # C08 / C13 / C12: the growth decision of reserve_rehash_inner against the contracts of its callees
@@ -208,6 +209,33 @@ def ctrl_rules(toks, i, out, hit):
     def seq(k, *texts):
         return k + len(texts) <= n and all(toks[k + a].text == x for a, x in enumerate(texts))
 
+    # R7b: `for X in (A..B).step_by(S) { BODY }` (BODY without `continue`) ->
+    #      `let end_ = B; let mut it_ = A; while it_ < end_ { let X = it_; BODY it_ = it_ + S; }`
+    if t.kind == 'id' and t.text == 'for' and out and out[-1].text in (';', '{', '}') and i + 4 < n \
+            and toks[i + 1].kind == 'id' and toks[i + 2].text == 'in' and toks[i + 3].text == '(':
+        c = extract._find_close(toks, i + 3)
+        inner = toks[i + 4:c]
+        dd = [k for k in range(len(inner) - 1) if inner[k].text == '.' and inner[k + 1].text == '.' and inner[k + 1].gap == '']
+        if seq(c + 1, '.', 'step_by', '(') and dd:
+            sc = extract._find_close(toks, c + 3)
+            if toks[sc + 1].text != '{':
+                raise ExtractError('R7b: unexpected shape after step_by(..)')
+            bc = extract._find_close(toks, sc + 1)
+            body_toks = toks[sc + 2:bc]
+            if any(x.kind == 'id' and x.text == 'continue' for x in body_toks):
+                raise ExtractError('R7b: continue inside a step_by loop')
+            A = extract.rewrite(inner[:dd[0]], set(), _HITS, ctrl_rules)
+            B = extract.rewrite(inner[dd[0] + 2:], set(), _HITS, ctrl_rules)
+            S = extract.rewrite(toks[c + 4:sc], set(), _HITS, ctrl_rules)
+            body = extract.rewrite(body_toks, set(), _HITS, ctrl_rules)
+            T = extract.T
+            X = toks[i + 1].text
+            out.extend([T('let', t.gap), T('end_'), T('=')] + B + [T(';', ''), T('let', '\n'), T('mut'), T('it_'), T('=')] + A + [T(';', ''),
+                        T('while', '\n'), T('it_'), T('<'), T('end_'), T('{'), T('let', '\n'), T(X), T('='), T('it_'), T(';', '')])
+            out.extend(body)
+            out.extend([T('it_', '\n'), T('='), T('it_'), T('+')] + S + [T(';', ''), T('}', '\n')])
+            hit('R7b_for_over_stepped_range_to_while')
+            return bc + 1
     # R7: `for PAT in EXPR { BODY }` -> the Rust reference's own desugaring
     #     `let mut it_ = EXPR.into_iter(); loop { match it_.next() { Some(PAT) => { BODY } None => break, } }`
     if t.kind == 'id' and t.text == 'for' and out and out[-1].text in (';', '{', '}') and not _FLAGS.get('no_r7'):
@@ -269,6 +297,35 @@ def ctrl_rules(toks, i, out, hit):
                 out.append(extract.T(')', ''))
                 hit('R6_group_load_of_ctrl_pointer_to_indexed_load')
                 return close_outer + 1
+    # R6b: `G.store_aligned(self.ctrl(E))` -> `self.group_store_aligned(E, G)`
+    if t.kind == 'id' and seq(i + 1, '.', 'store_aligned', '(', 'self', '.', 'ctrl', '('):
+        close_inner, args = _args_until_close(toks, i + 7)
+        close_outer = extract._find_close(toks, i + 3)
+        if close_outer != close_inner + 1:
+            raise ExtractError('R6b: unexpected shape of store_aligned argument')
+        out.extend([extract.T('self', t.gap), extract.T('.', ''), extract.T('group_store_aligned', ''), extract.T('(', '')])
+        out.extend(extract.rewrite(args, set(), _HITS, ctrl_rules))
+        out.extend([extract.T(',', ''), extract.T(t.text), extract.T(')', '')])
+        hit('R6b_group_store_to_indexed_store')
+        return close_outer + 1
+    # R5c: `self.ctrl(S).copy_to(self.ctrl(D), N)` -> `self.ctrl_copy(S, D, N)`
+    if t.text == 'self' and seq(i + 1, '.', 'ctrl', '('):
+        c1, a1 = _args_until_close(toks, i + 3)
+        if seq(c1 + 1, '.', 'copy_to', '(', 'self', '.', 'ctrl', '('):
+            c2, a2 = _args_until_close(toks, c1 + 7)
+            c3 = extract._find_close(toks, c1 + 3)
+            if toks[c2 + 1].text != ',':
+                raise ExtractError('R5c: unexpected shape of copy_to')
+            a3 = toks[c2 + 2:c3]
+            out.extend([extract.T('self', t.gap), extract.T('.', ''), extract.T('ctrl_copy', ''), extract.T('(', '')])
+            out.extend(extract.rewrite(a1, set(), _HITS, ctrl_rules))
+            out.append(extract.T(',', ''))
+            out.extend(extract.rewrite(a2, set(), _HITS, ctrl_rules))
+            out.append(extract.T(',', ''))
+            out.extend(extract.rewrite(a3, set(), _HITS, ctrl_rules))
+            out.append(extract.T(')', ''))
+            hit('R5c_ctrl_pointer_copy_to_indexed_copy')
+            return c3 + 1
     # *self.ctrl(E) ...
     recv_len = 0
     if t.text == '*' and (seq(i + 1, 'self', '.', 'ctrl', '(') or seq(i + 1, 'self_', '.', 'ctrl', '(')):
